@@ -99,7 +99,7 @@ func init() {
 				panic(err)
 			}
 			c := decode[c12SchedCmdCase](raw)
-			r := c12SchedCmdRun(bin, c, "1", "60", c.Schedule)
+			r := c12SchedCmdRun(bin, c, "1", "60", append([]int{}, c.Schedule...)) // non-nil: replay mode even for the empty (default) schedule
 			fmt.Printf("replayed schedule: %s\n", r.raw)
 			if r.Outcome != r.Want {
 				e.R.Fail(ev.Fail{Class: "C12/schedule/command-outcome", Msg: fmt.Sprintf("crd %s under schedule %v: %s, default schedule %s", strings.Join(c.Cmd.Args, " "), c.Schedule, r.Outcome, r.Want), Kind: "schedule-command", Case: c})
